@@ -38,7 +38,8 @@ var extras = []map[string][]string{nil, {"scopes": {"x"}}, {"k/1": {"v", "w"}}, 
 
 var authHeaders = [][]string{nil, {"Bearer client-token"}, {"Basic Y2xpZW50OnB3"}}
 var impUsers = []string{"", "bob", "system:serviceaccount:n:s", "system:anonymous"}
-var impGroups = [][]string{nil, {"g9"}, {"g9", "system:unauthenticated"}, {"system:authenticated"}}
+// (a header that is present with an empty value is still "groups were specified": [""] and ["", "g9"])
+var impGroups = [][]string{nil, {"g9"}, {"g9", "system:unauthenticated"}, {"system:authenticated"}, {""}, {"", "g9"}}
 var impExtras = []map[string][]string{nil, {"Scopes": {"s"}}, {"%41bc": {"v"}}, {"Scopes": {"s", "t"}, "X-Y": {"z"}}}
 // (a client may also name identity-bearing headers in its Connection header: a proxy deletes the headers listed there,
 // which must hit only what the CLIENT sent, never what the gateway generates)
@@ -349,6 +350,6 @@ func main() {
 	c.Finish(map[string]interface{}{
 		"evaluations":         c.Counter("cases"),
 		"distinct_nontrivial": c.DistinctCount("outcomes"),
-		"rule":                "authenticated identity (7 names incl. spaces, UTF-8, percent, comma x 5 group lists x 6 extra maps) fully; the product of client headers Authorization (3) x Impersonate-User (4) x Impersonate-Group (4) x Impersonate-Extra-* (4) x other Impersonate-* members / Connection headers naming identity headers (7) x authorizer behaviour (6: allow, deny/err the k-th check) with canonical header names (all three casings in the thorough tier), plus identity x impersonation and casing x impersonation pairs. Distinct = (gateway answer class, which header families were present).",
+		"rule":                "authenticated identity (7 names incl. spaces, UTF-8, percent, comma x 5 group lists x 6 extra maps) fully; the product of client headers Authorization (3) x Impersonate-User (4) x Impersonate-Group (6, incl. an empty first value) x Impersonate-Extra-* (4) x other Impersonate-* members / Connection headers naming identity headers (7) x authorizer behaviour (6: allow, deny/err the k-th check) with canonical header names (all three casings in the thorough tier), plus identity x impersonation and casing x impersonation pairs. Distinct = (gateway answer class, which header families were present).",
 	})
 }
